@@ -53,6 +53,7 @@ HintMap(pp, qp) ==
    F |-> HintSeq(IdVals(pp, "F"), IdVals(qp, "F")), C |-> HintSeq(IdVals(pp, "C"), IdVals(qp, "C"))]
 
 IsKernelOp(c) == c.op \notin {"stamp", "more_props"}
+IsKernelCallKnown(c) == TRUE
 
 (* the slot map a call induces where the property leaves it open           *)
 Renumbers(pre, c) == IsDelete(c) \/ IsGC(pre, c) \/ c.op = "status_gc"
@@ -75,6 +76,17 @@ CoreOfJson(p) ==
    deferred |-> p.deferred, fast |-> p.fast,
    props |-> IF Has(p, "props") THEN [i \in DOMAIN p.props |-> p.props[i].v] ELSE <<>>]
 
+(* The twin comparison (C12) is not asserted where the answer is not        *)
+(* determined: add_edge / add_face(vertices) between vertices joined by     *)
+(* several parallel live edges may legitimately return any of them (the     *)
+(* incidence-guided and the scanning search visit them in different order), *)
+(* and once the two runs have diverged this way the rest is not compared.   *)
+TwinExcused(pre, c, pline) ==
+  \/ (Has(pline, "tw") /\ CoreOfJson(pline.tw) # CoreOfJson(pline.post))
+  \/ (c.op = "add_edge" /\ ~c.f /\ Cardinality(LiveEdgesBetween(pre, c.a, c.b)) > 1)
+  \/ (c.op = "add_face_v" /\ \E i \in 1 .. Len(c.l) :
+          Cardinality(LiveEdgesBetween(pre, c.l[i], c.l[(i % Len(c.l)) + 1])) > 1)
+
 (* ----------------------------- one line -------------------------------- *)
 (* returns [msg |-> "" or the first failed check, drift |-> 0/1]           *)
 Want(id) == id \in Props
@@ -86,7 +98,10 @@ LineCheck(i, tainted) ==
       c    == ln.c
       pre  == Obs(pp)
       post == Obs(qp)
-      kern == IsKernelOp(c)
+      (* the specialised kernels override add_face / add_cell (valence guards, hex reordering):   *)
+      (* those calls are specified in OVMTet / OVMHex, not here                                   *)
+      poly == ~Has(ln, "mesh") \/ ln.mesh = "poly" \/ c.op \notin {"add_face", "add_cell", "add_face_v"}
+      kern == IsKernelOp(c) /\ Sane(pre) /\ poly   \* a malformed pre state was reported at the step that produced it
       m    == IF kern THEN Apply(pre, c) ELSE pre
       gM   == ModelMap(m)
       hasP == Has(qp, "props") /\ Has(pp, "props")
@@ -96,12 +111,13 @@ LineCheck(i, tainted) ==
       g    == IF IsSwap(c) THEN SwapMap(pre, c)
               ELSE IF Renumbers(pre, c) THEN (IF relM THEN gM ELSE gH)
               ELSE GrowMap(pre, post)
-      drift == IF kern /\ Strip(m) # Strip(post)
+      drift == IF kern /\ Sane(post) /\ Strip(m) # Strip(post)
                THEN (IF PrintT(<<"VXDIFF", i, c.op, {fld \in DOMAIN Strip(m) : Strip(m)[fld] # Strip(post)[fld]}>>) THEN 1 ELSE 1)
                ELSE 0
       inC  == Manifoldish(post) /\ Manifoldish(pre)
       msg ==
-        IF ~WellFormed(post) THEN "WellFormed"
+        IF ~Sane(pre) THEN ""
+        ELSE IF ~WellFormed(post) THEN "WellFormed"
         ELSE IF Want("C02") /\ ~CountersConsistent(post) THEN "C02:CountersConsistent"
         ELSE IF Want("C02") /\ (qp.genus # GenusDef(post) \/ qp.needs_gc # NeedsGC(post)) THEN "C02:GenusOrNeedsGC"
         ELSE IF Want("C02") /\ kern /\ IsDelete(c) /\ ~relH THEN "C02:DeleteRel"
@@ -115,8 +131,9 @@ LineCheck(i, tainted) ==
              THEN "C03:PropsFollow"
         ELSE IF Want("C01") /\ inC /\ ~CacheIsInverse(post) THEN "C01:CacheIsInverse"
         ELSE IF Want("C09") /\ inC /\ ~tainted /\ ~FanOrder(post) THEN "C09:FanOrder"
-        ELSE IF Want("C12") /\ Has(ln, "tw") /\ CoreOfJson(ln.tw) # CoreOfJson(qp) THEN "C12:TwinCore"
-        ELSE IF Want("C12") /\ Has(ln, "tw") /\ ln.tret # ln.ret THEN "C12:TwinRet"
+        ELSE IF Want("C12") /\ Has(ln, "tw") /\ kern /\ ~TwinExcused(pre, c, Tr[ln.pl]) /\ CoreOfJson(ln.tw) # CoreOfJson(qp) THEN "C12:TwinCore"
+        ELSE IF Want("C12") /\ Has(ln, "tw") /\ kern /\ ~TwinExcused(pre, c, Tr[ln.pl]) /\ ln.tret # ln.ret THEN "C12:TwinRet"
+        ELSE IF Want("C02") /\ kern /\ ~IsKernelCallKnown(c) THEN ""
         ELSE IF Want("C17") /\ kern /\ IsSwap(c) /\ Tr[ln.pl].e = "call" /\ Tr[ln.pl].c = c
                 /\ CoreOfJson(Tr[Tr[ln.pl].pl].post) # CoreOfJson(qp) THEN "C17:SwapTwiceRestores"
         ELSE IF Has(ln, "q") /\ inC THEN QCheck(post, ln.q, Props)
